@@ -78,6 +78,8 @@ def int_spellings(t, tier):
         ('0b101', 5, 'expr'),
         (f'10{t}', 10, 'expr'),
     ]
+    # a unary operator other than minus in front of a literal: `!7` is -8 for signed types, MAX - 7 for unsigned ones
+    sp.append(('!7', (-8 if int_signed(t) else int_max(t) - 7), 'expr'))
     if int_bits(t) >= 16:
         sp.append(('1_000', 1000, 'lit'))
     if int_bits(t) >= 64:
@@ -637,6 +639,7 @@ def build(tier='quick', seed=0):
         U = t.upper()
         for kind in LOWERS + UPPERS:
             red = [('10', 10, 'lit'), (f'K_{U} << 2', K << 2, 'expr'), (f'{t}::MAX' if kind in UPPERS else f'{t}::MIN', int_max(t) if kind in UPPERS else int_min(t), 'expr')]
+            red.append(('!0', (-1 if int_signed(t) else int_max(t)), 'expr'))
             if int_bits(t) >= 64:
                 red += [('(1 << 31)', 1 << 31, 'expr'), ('(2_000_000_000 + 2_000_000_000)', 4_000_000_000, 'expr')]
             for (text, value, form) in red:
@@ -831,6 +834,14 @@ def build(tier='quick', seed=0):
         arb_cases.append([V('less_or_equal', '-1e-3', f32_round(-1e-3) if t == 'f32' else -1e-3, 'lit'), V('greater', '-2.25', -2.25, 'lit')])
         arb_cases.append([V('greater_or_equal', '0.1', f32_round(0.1) if t == 'f32' else 0.1, 'lit'), V('less_or_equal', '0.7', f32_round(0.7) if t == 'f32' else 0.7, 'lit')])
         arb_cases.append([V('greater_or_equal', '-123456.7', f32_round(-123456.7) if t == 'f32' else -123456.7, 'lit'), V('less_or_equal', '0.3', f32_round(0.3) if t == 'f32' else 0.3, 'lit')])
+        # one-value and few-ULP ranges on values that are not dyadic: any scaling whose rounding leaves [lower, upper] shows here
+        rr = (lambda x: f32_round(x)) if t == 'f32' else (lambda x: x)
+        arb_cases.append([V('greater_or_equal', '0.1', rr(0.1), 'lit'), V('less_or_equal', '0.1', rr(0.1), 'lit')])
+        arb_cases.append([V('greater_or_equal', '-0.3', rr(-0.3), 'lit'), V('less_or_equal', '-0.3', rr(-0.3), 'lit')])
+        if t == 'f64':
+            arb_cases.append([V('greater_or_equal', '36.6', 36.6, 'lit'), V('less_or_equal', '36.60000000000001', 36.60000000000001, 'lit')])
+        else:
+            arb_cases.append([V('greater_or_equal', '36.6', rr(36.6), 'lit'), V('less_or_equal', '36.600006', rr(36.600006), 'lit')])
         for vs in arb_cases:
             full.append(decl('float', t, validators=vs, derives=['Debug', 'Arbitrary'], tags=['arb']))
         full.append(decl('float', t, derives=['Debug', 'Arbitrary'], tags=['arb']))
@@ -1108,6 +1119,21 @@ def build(tier='quick', seed=0):
     nostd.append(decl('any', 'Point', custom={'with_text': 'check_point', 'form': 'path', 'callee': 'check_point', 'error': 'MyErr'},
                       derives=['Debug', 'TryFrom', 'FromStr'], tags=['nostd']))
 
+    # validated + Default with default expressions that are not a literal (struct literal, block, string with braces): the
+    # expression is spliced into generated code and, in some templates, into messages
+    brace_defaults = [
+        decl('any', 'Point', validators=[V('predicate', 'pred_point', form='path', callee='pred_point')], derives=['Debug', 'Default'],
+             default={'text': 'Point { x: 1, y: 2 }', 'value': None}, tags=['default', 'brace-default']),
+        decl('any', 'Point', custom={'with_text': 'check_point', 'form': 'path', 'callee': 'check_point', 'error': 'MyErr'}, derives=['Debug', 'Default'],
+             default={'text': 'Point { x: 3, y: 4 }', 'value': None}, tags=['default', 'brace-default']),
+        decl('int', 'i32', validators=[V('less', '10', 10, 'lit')], derives=['Debug', 'Default'], default={'text': '{ 4 }', 'value': 4}, tags=['default', 'brace-default']),
+        decl('float', 'f64', validators=[V('finite')], derives=['Debug', 'Default'], default={'text': 'if true { 1.5 } else { 2.5 }', 'value': 1.5},
+             tags=['default', 'brace-default']),
+        decl('string', 'String', validators=[V('not_empty')], derives=['Debug', 'Default'], default={'text': '"{}{x}"', 'value': '{}{x}'}, tags=['default', 'brace-default']),
+    ]
+    nostd += [copy.deepcopy(d) for d in brace_defaults if d['family'] != 'string']   # C15 is about integer/float/other inner types
+    full += [copy.deepcopy(d) for d in brace_defaults]
+
     # ---------------- random sample of the dimension product (interaction coverage) ---------------------
     full += random_decls(random.Random(seed * 7919 + 17), 2500 if thorough else 320, tier)
 
@@ -1221,6 +1247,20 @@ def build_tests(tier='quick'):
              tags=['gentest']), default_test='fails')
     add(decl('string', 'String', sanitizers=[S('trim')], validators=[V('not_empty')], derives=['Debug', 'Default'], default={'text': '" a "', 'value': ' a '},
              tags=['gentest']), default_test='passes')
+    # custom validation: the outcome of the default-validity test is the user's function's business, but the test has to
+    # be there and has to depend on it, in every family
+    for t in ['i32', 'u16'] + (['i128', 'usize'] if thorough else []):
+        add(decl('int', t, custom={'with_text': f'check_{t}', 'form': 'path', 'callee': f'check_{t}', 'error': 'MyErr'},
+                 derives=['Debug', 'Default'], default={'text': f'K_{t.upper()}', 'value': K}, tags=['gentest', 'custom']), default_test='depends')
+    for t in FLOAT_TYPES:
+        add(decl('float', t, custom={'with_text': f'check_{t}', 'form': 'path', 'callee': f'check_{t}', 'error': 'MyErr'},
+                 derives=['Debug', 'Default'], default={'text': f'KF_{t.upper()} / 2.0', 'value': KF / 2}, tags=['gentest', 'custom']), default_test='depends')
+    add(decl('string', 'String', custom={'with_text': 'check_str', 'form': 'path', 'callee': 'check_str', 'error': 'MyErr'},
+             derives=['Debug', 'Default'], default={'text': '""', 'value': ''}, tags=['gentest', 'custom']), default_test='depends')
+    add(decl('any', 'Point', custom={'with_text': 'check_point', 'form': 'path', 'callee': 'check_point', 'error': 'MyErr'},
+             derives=['Debug', 'Default'], default={'text': 'Point { x: 1, y: 2 }', 'value': None}, tags=['gentest', 'custom']), default_test='depends')
+    add(decl('any', 'Point', validators=[V('predicate', 'pred_point', form='path', callee='pred_point')],
+             derives=['Debug', 'Default'], default={'text': 'Point { x: 1, y: 2 }', 'value': None}, tags=['gentest', 'custom']), default_test='depends')
     for i, d in enumerate(ds):
         d['name'] = f'G{i:04d}'
     return {'ctests': {'features': ['serde', 'arbitrary', 'new_unchecked', 'regex'], 'std': True,
